@@ -243,6 +243,15 @@ pub broadcast axiom fn ax_string_from_ref(s: &String) ensures #[trigger] <String
 pub broadcast axiom fn ax_string_from_str(s: &str) ensures (#[trigger] <String as FromSpec<&str>>::from_spec(s))@ == s@;
 pub broadcast group string_conv { ax_string_conv_obeys, ax_string_from_string, ax_string_from_ref, ax_string_from_str, ax_addr_to_string, ax_addr_ref_to_string }
 
+pub broadcast axiom fn ax_string_to_string(t: &String, s: String)
+    ensures #[trigger] vstd::string::to_string_from_display_ensures::<String>(t, s) ==> s@ == t@;
+// std `impl<T> From<T> for Option<T>` and identity on Option
+pub broadcast axiom fn ax_opt_from_obeys<T>() ensures #[trigger] <Option<T> as FromSpec<T>>::obeys_from_spec();
+pub broadcast axiom fn ax_opt_from<T>(t: T) ensures #[trigger] <Option<T> as FromSpec<T>>::from_spec(t) == Some(t);
+pub broadcast axiom fn ax_opt_id_obeys<T>() ensures #[trigger] <Option<T> as FromSpec<Option<T>>>::obeys_from_spec();
+pub broadcast axiom fn ax_opt_id<T>(t: Option<T>) ensures #[trigger] <Option<T> as FromSpec<Option<T>>>::from_spec(t) == t;
+pub broadcast group opt_conv { ax_opt_from_obeys, ax_opt_from, ax_opt_id_obeys, ax_opt_id, ax_string_to_string }
+
 pub struct Binary(pub Vec<u8>);
 impl View for Binary { type V = Seq<u8>; open spec fn view(&self) -> Seq<u8> { self.0@ } }
 impl Clone for Binary { #[verifier::external_body] fn clone(&self) -> (r: Self) ensures r == *self { unimplemented!() } }
